@@ -304,7 +304,8 @@ class FileResponse(StreamResponse):
             # entity-tag form: strong comparison, so a weak tag never matches
             # https://www.rfc-editor.org/rfc/rfc9110#section-13.1.5
             return value == f'"{st.st_mtime_ns:x}-{st.st_size:x}"'
-        return True
+        # neither a date nor an entity-tag: a validator that cannot match
+        return not value
 
     async def _prepare_open_file(
         self,
